@@ -225,6 +225,8 @@ pub struct World {
     pub model: RefCell<Model>,
     pub ctx: RefCell<Vec<Ctx>>,
     pub in_stabilise: Cell<bool>,
+    /// this run also renders the graph (save_dot_to_string) from callbacks and between actions
+    pub dot_reads: Cell<bool>,
     /// an update handler has started running in the current stabilise
     pub handler_phase: Cell<bool>,
     pub crash_counter: Cell<u64>,
@@ -271,6 +273,7 @@ impl World {
             model: RefCell::new(Model::new(knobs)),
             ctx: RefCell::new(vec![]),
             in_stabilise: Cell::new(false),
+            dot_reads: Cell::new(knobs.hash_seed % 8 == 3),
             handler_phase: Cell::new(false),
             crash_counter: Cell::new(0),
             crash_at: knobs.crash_at,
